@@ -298,7 +298,7 @@ int main(int argc, char** argv)
     auto const a = vf::parse_args(argc, argv);
     report r(a);
     r.set_case_timeout(60);
-    ::mkdir("build/out/tmp", 0777);
+    ::mkdir("build", 0777); ::mkdir("build/out", 0777); ::mkdir("build/out/tmp", 0777);
     g_dir = "build/out/tmp/c20_" + std::to_string(::getpid());
     ::mkdir(g_dir.c_str(), 0777);
 #if VF_PART_ENABLED(0)
